@@ -33,6 +33,7 @@ import (
 	"unicode"
 	"unicode/utf8"
 
+	"github.com/blevesearch/segment"
 	"github.com/blugelabs/bluge"
 	"github.com/blugelabs/bluge/analysis"
 	"github.com/blugelabs/bluge/analysis/analyzer"
@@ -236,8 +237,51 @@ func makeTokenizer(kind string) analysis.Tokenizer {
 		return tokenizer.NewRegexpTokenizer(nonSpaceRe)
 	case "excletter":
 		return tokenizer.NewExceptionsTokenizer(digitsRe, tokenizer.NewLetterTokenizer())
+	case "excws":
+		return tokenizer.NewExceptionsTokenizer(digitsRe, tokenizer.NewWhitespaceTokenizer())
 	}
 	return nil
+}
+
+// depAux: what the dependency returned for this text, so that the model of the tokenizer's own arithmetic can
+// be replayed: regexp match indices ("m=s-e,s-e") or the word segmenter's segments ("seg=len:type,...").
+func depAux(kind string, text []byte) string {
+	var re *regexp.Regexp
+	switch kind {
+	case "reword":
+		re = wordRe
+	case "renonspace":
+		re = nonSpaceRe
+	case "excws", "excletter":
+		re = digitsRe
+	case "unicode":
+		var b strings.Builder
+		b.WriteString("seg=")
+		sg := segment.NewWordSegmenterDirect(text)
+		n := 0
+		for sg.Segment() {
+			if n > 0 {
+				b.WriteByte(',')
+			}
+			fmt.Fprintf(&b, "%d:%d", len(sg.Bytes()), sg.Type())
+			n++
+		}
+		if n == 0 {
+			b.WriteByte('_')
+		}
+		return b.String()
+	default:
+		return ""
+	}
+	ms := re.FindAllIndex(text, -1)
+	if len(ms) == 0 {
+		return "m=_"
+	}
+	parts := make([]string, len(ms))
+	for i, m := range ms {
+		parts[i] = strconv.Itoa(m[0]) + "-" + strconv.Itoa(m[1])
+	}
+	return "m=" + strings.Join(parts, ",")
 }
 
 func modelledTokenizer(kind string) bool {
@@ -442,6 +486,7 @@ func init() {
 		{name: "x-reword", mk: wrap(tokenizer.NewRegexpTokenizer(wordRe)), tokx: "reword"},
 		{name: "x-renonspace", mk: wrap(tokenizer.NewRegexpTokenizer(nonSpaceRe)), tokx: "renonspace"},
 		{name: "x-excletter", mk: wrap(tokenizer.NewExceptionsTokenizer(digitsRe, tokenizer.NewLetterTokenizer())), tokx: "excletter"},
+		{name: "x-excws", mk: wrap(tokenizer.NewExceptionsTokenizer(digitsRe, tokenizer.NewWhitespaceTokenizer())), tokx: "excws"},
 		{name: "x-html", mk: func() *analysis.Analyzer {
 			return &analysis.Analyzer{CharFilters: []analysis.CharFilter{char.NewHTMLCharFilter()}, Tokenizer: uni(), TokenFilters: []analysis.TokenFilter{low()}}
 		}},
@@ -561,7 +606,11 @@ func runStages(d *anDef, a *analysis.Analyzer, text []byte, ps *[]pair) (ts anal
 			}
 			*ps = append(*ps, pair{op, render(ts)})
 		} else if d.tokx != "" {
-			*ps = append(*ps, pair{"tokx " + d.tokx + " " + hlib.Hex(saw), render(ts)})
+			op := "tokx " + d.tokx + " " + hlib.Hex(saw)
+			if aux := depAux(d.tokx, saw); aux != "" {
+				op += " " + aux
+			}
+			*ps = append(*ps, pair{op, render(ts)})
 		}
 	}
 	for i, f := range a.TokenFilters {
@@ -662,6 +711,8 @@ func execTok(w []string, out func(string, string), st *hlib.Stats) {
 		if cb := classBits(kind, text); cb != "" {
 			op += " " + cb
 		}
+	} else if aux := depAux(kind, text); aux != "" {
+		op += " " + aux
 	}
 	res := hlib.Catch(func() string {
 		r1 := render(tk.Tokenize(clone(text)))
@@ -681,14 +732,15 @@ func execFlt(w []string, out func(string, string), st *hlib.Stats) {
 		out(strings.Join(w, " "), "bad-op")
 		return
 	}
-	in := parseStream(w[3])
+	mk := func() analysis.TokenStream { return parseStream(w[3]) }
+	in := mk()
 	op := "flt " + spec + " " + w[2] + " " + render(in)
 	if aux := auxOf(spec, in); aux != "" {
 		op += " " + aux
 	}
 	res := hlib.Catch(func() string {
 		r1 := render(f.Filter(in))
-		r2 := render(makeFilter(spec).Filter(parseStream(w[3])))
+		r2 := render(makeFilter(spec).Filter(mk()))
 		if r1 != r2 {
 			return "nondeterministic"
 		}
@@ -724,7 +776,11 @@ func execPipe(w []string, out func(string, string), st *hlib.Stats) {
 			}
 			ps = append(ps, pair{op, render(ts)})
 		} else {
-			ps = append(ps, pair{"tokx " + kind + " " + hlib.Hex(text), render(ts)})
+			op := "tokx " + kind + " " + hlib.Hex(text)
+			if aux := depAux(kind, text); aux != "" {
+				op += " " + aux
+			}
+			ps = append(ps, pair{op, render(ts)})
 		}
 		for _, spec := range specs {
 			f := makeFilter(spec)
